@@ -103,10 +103,11 @@ def run(ctx):
             jobs = [("c%d-k%d-%s" % (ci, k, v), [(k, v)]) for k, v in pts]
             # double crashes: a second kill during the resumed run
             n2 = 3 if q else 16
-            for _ in range(n2):
+            for j2 in range(n2):
                 k1, v1 = rng.choice(pts)
                 k2 = rng.randrange(0, 12)
-                jobs.append(("c%d-k%d-%s-k%d" % (ci, k1, v1, k2), [(k1, v1), (k2, rng.choice(["before", "after"]))]))
+                # (the job name is the scratch directory: unique, two jobs may draw the same pair of kill points)
+                jobs.append(("c%d-d%d-k%d-%s-k%d" % (ci, j2, k1, v1, k2), [(k1, v1), (k2, rng.choice(["before", "after"]))]))
             with ThreadPoolExecutor(14) as ex:
                 results = list(ex.map(lambda j: one_crash(base, j[0], gold, j[1], env), jobs))
             for (name, kills), (outcome, trace, info) in zip(jobs, results):
